@@ -5,6 +5,7 @@ from props import PROPS, budget
 STREAM_SCHEDS = ["reply-first", "cancel-before-write", "deadline-before-write", "cancel-during-read",
                  "retry-after-write-error", "cancel-before-write-overlap"]
 PIPE_SCHEDS = ["reply", "dup-reply", "late-reply"]
+DOH_SCHEDS = ["reply-first", "cancel-during-dial", "deadline-during-dial", "cancel-during-dial-overlap", "cancel-during-read"]
 
 
 def ownership_gen(rng, tier):
@@ -27,7 +28,21 @@ def ownership_gen(rng, tier):
         for sched in PIPE_SCHEDS:
             out.append("o%d sc=pipeline sched=%s mode=poison seed=%d" % (n, sched, rng.randrange(1 << 30)))
             n += 1
+        # DoH: the query string handed to the HTTP round-trip goroutine, gated dialer (slow dial / handshake);
+        # doh = HTTP/1.1 plain, doh2 = HTTP/2 over TLS
+        for sc in ("doh", "doh2"):
+            for sched in DOH_SCHEDS:
+                modes = ["poison"]
+                if sched in ("cancel-during-dial", "cancel-during-dial-overlap"):
+                    modes.append("onep")
+                for mode in modes:
+                    out.append("o%d sc=%s sched=%s mode=%s seed=%d" % (n, sc, sched, mode, rng.randrange(1 << 30)))
+                    n += 1
     if tier == "thorough":
+        for sc in ("doh", "doh2"):
+            for sched in DOH_SCHEDS:
+                out.append("r%d sc=%s sched=%s mode=poison seed=%d race=1" % (n, sc, sched, rng.randrange(1 << 30)))
+                n += 1
         # the same replays under the race detector (build/implrun-race)
         for sc in ("reuse", "quic"):
             for sched in STREAM_SCHEDS:
@@ -55,8 +70,8 @@ def ownership_oracle(line, res):
     why = []
     wires = r.get("wire", "-").split(",")
     if any(w in ("poison", "foreign", "other") for w in wires):
-        why.append("octets written to the upstream connection are not the caller's own query (wire=%s): "
-                   "the buffer was used after its release" % r.get("wire"))
+        why.append("octets sent to the upstream are not the caller's own query (wire=%s): "
+                   "a buffer was used after its release" % r.get("wire"))
     if "damaged-reply" in r.get("ret", ""):
         why.append("a delivered reply message was released/recycled while the caller still used it")
     if r.get("ev", "-") != "-":
@@ -160,6 +175,8 @@ PROPS["C20"] = dict(
              classify=lambda l, r: "decode/" + r.split(" ")[0][:8], nontrivial=lambda l, r: r.startswith("OK"), timeout=900),
     ],
     rule="ownership: every (transport, release/use ordering) pair replayed deterministically against gated fake peers "
+         "(reuse, QUIC, pipeline: gated Write; DoH over HTTP/1.1 and HTTP/2-TLS: gated dialer, the fake server records the "
+         "request target it receives) "
          "with the pool's poison/quarantine hook on (and, for the D14 orderings, also with the hook off and one P, a second "
          "request recycling the array); compared with the verdict of the ownership LTS for the same schedule; "
          "ownload: concurrent end-to-end load through the in-process router (udp/tcp/gnet/http/fasthttp listeners, "
